@@ -258,10 +258,17 @@ func overlapOnce(c *eng.Ctx, idx int, sc overlapScenario, _, _ int, j int, mirro
 	} else if clRes.Class != "ok" && clRes.Class != "disposal" {
 		fs = append(fs, core.Finding{Clause: "closer-unexpected-error", Sig: feat + ":" + clRes.Class, Detail: fmt.Sprintf("%s, pause point %d: the closing call returned %s (%v)", feat, j, clRes.Class, core.TrimErr(clRes.Err))})
 	}
-	// a scope that was returned normally must be usable or consistently disposed
+	// a scope that was returned normally by a CreateScope overlapping the Close of its parent
+	// (or of an ancestor / the provider) is a descendant of a closed scope once both calls have
+	// returned: it must refuse use ("closing a scope closes all its descendants")
 	if !r.Poisoned && op.Kind == core.OpCreate && opRes.Class == "ok" && opRes.NewScope > 0 {
+		if sc.closer == "cancel" {
+			awaitDisposed(r, opRes.NewScope)
+		}
 		g := r.Do(core.Op{Kind: core.OpGet, Scope: opRes.NewScope, Type: "S2"})
-		if !okClasses[g.Class] {
+		if g.Class == "ok" {
+			fs = append(fs, core.Finding{Clause: "descendant-survives-close", Sig: feat, Detail: fmt.Sprintf("%s, pause point %d: the scope returned by the overlapping CreateScope still resolves services although the closing call on its ancestor has returned", feat, j)})
+		} else if !okClasses[g.Class] {
 			fs = append(fs, core.Finding{Clause: "half-initialised-scope", Sig: feat + ":" + g.Class, Detail: fmt.Sprintf("%s, pause point %d: the scope returned by the overlapping CreateScope answers Get with %s (%v)", feat, j, g.Class, g.Panic)})
 		}
 		if cl := r.Do(core.Op{Kind: core.OpClose, Scope: opRes.NewScope}); cl.Class == "PANIC" {
